@@ -18,7 +18,9 @@ func (e *errorRecorder) record(err error) {
 	}
 	e.Do(func() {
 		e.err = err
+		vh("err.first", e, err)
 	})
+	vh("err.record", e, err)
 }
 
 type pathTracker struct {
